@@ -8,6 +8,7 @@ import (
 	"encoding/json"
 	"fmt"
 	"math/rand"
+	"os"
 	"path/filepath"
 	"regexp"
 	"sort"
@@ -294,7 +295,7 @@ func checkC03(e *Env, r *Report) {
 	}
 	builds := make([]*Build, len(fcfgs))
 	parallel(len(fcfgs), 8, func(i int) { builds[i] = e.RunPrebuild(fcfgs[i], BuildOpts{NoCache: true}) })
-	nSteps := 0
+	nSteps, nSingle := 0, 0
 	for i, b := range builds {
 		if b.Err != nil {
 			r.Fatal = b.Err.Error()
@@ -324,8 +325,53 @@ func checkC03(e *Env, r *Report) {
 			file := relBuildName(str(ev["file"]))
 			recs = append(recs, map[string]any{"ev": "step", "id": fmt.Sprintf("%s|%s %s|%s", file, d[0].DK, strings.Join(d[0].FS, " "), fcfgs[i].Key()), "cfg": fcfgs[i], "d": d[0], "before": before, "after": after})
 		}
+		// the same files built on their own (--file): when such a build succeeds it must write what the whole build wrote
+		if i == 0 || e.Tier == "thorough" {
+			singles := filterHosts(e.Src)
+			if e.Tier != "thorough" && len(singles) > 48 {
+				rng := rand.New(rand.NewSource(e.Seed))
+				rng.Shuffle(len(singles), func(a, b int) { singles[a], singles[b] = singles[b], singles[a] })
+				keep := singles[:0:0]
+				for k, sf := range singles {
+					if k < 40 || sf.both {
+						keep = append(keep, sf)
+					}
+				}
+				singles = keep
+			}
+			type sres struct{ rec map[string]any }
+			outs := make([]sres, len(singles))
+			parallel(len(singles), 8, func(k int) {
+				sf := singles[k]
+				sb := e.RunPrebuild(fcfgs[i], BuildOpts{NoCache: true, Tag: fmt.Sprint("single", k), Extra: []string{"--file", filepath.Join("apparmor.d", sf.rel)}})
+				defer sb.Drop()
+				if sb.Err != nil {
+					return // a single-file build that fails is not judged here
+				}
+				base := filepath.Base(sf.rel)
+				for _, n := range []string{base, base + ".apparmor.d"} {
+					at, err := os.ReadFile(filepath.Join(sb.Out, "apparmor.d", n))
+					if err != nil {
+						continue
+					}
+					wt, err := os.ReadFile(filepath.Join(b.Out, "apparmor.d", n))
+					if err != nil {
+						continue
+					}
+					outs[k] = sres{map[string]any{"ev": "single", "id": fmt.Sprintf("single|%s|%s", n, fcfgs[i].Key()), "whole": shaS(string(wt)), "alone": shaS(string(at)),
+						"markers": strings.Count(string(at), "#aa:only") + strings.Count(string(at), "#aa:exclude")}}
+				}
+			})
+			for _, o := range outs {
+				if o.rec != nil {
+					recs = append(recs, o.rec)
+					nSingle++
+				}
+			}
+		}
 		b.Drop()
 	}
+	r.Coverage["single_file_builds_compared"] = nSingle
 	r.Coverage["field_filter_applications"] = nSteps
 	r.Coverage["field_configs"] = len(fcfgs)
 	r.Coverage["trace_events"] = len(recs)
@@ -424,4 +470,25 @@ func unkey(ls []fLine) []fLine {
 		}
 	}
 	return ls
+}
+
+type filterHost struct {
+	rel  string // path below apparmor.d
+	both bool   // also carries an exec / stack directive
+}
+
+// filterHosts: the shipped profile files that carry only / exclude directives.
+func filterHosts(src string) []filterHost {
+	res := []filterHost{}
+	for _, pf := range profileFiles(src) {
+		t, err := os.ReadFile(filepath.Join(src, "apparmor.d", pf))
+		if err != nil {
+			continue
+		}
+		ts := string(t)
+		if strings.Contains(ts, "#aa:only") || strings.Contains(ts, "#aa:exclude") {
+			res = append(res, filterHost{pf, strings.Contains(ts, "#aa:exec") || strings.Contains(ts, "#aa:stack")})
+		}
+	}
+	return res
 }
